@@ -50,7 +50,7 @@ func c03Leaf(t *rapid.T, ctx *Ctx, sc *Scenario, prefix string, fam int) (*SegCa
 		desc = fmt.Sprintf("large-with-markers{%d docs}", len(b))
 	}
 	c := &SegCase{Seg: seg, Exp: Expect(b, sc.Norm.F), Docs: b, Mode: 1025, Desc: fmt.Sprintf("built{%s}", desc)}
-	hold := rapid.IntRange(holdBuilt, holdFile).Draw(t, prefix+":hold")
+	hold := rapid.IntRange(holdBuilt, holdMmap).Draw(t, prefix+":hold")
 	if hold != holdBuilt {
 		if err := c.reload(ctx, hold); err != nil {
 			return nil, err
@@ -112,7 +112,7 @@ func c03Prop(st *CaseStats, fam int) func(t *rapid.T) {
 					t.Fatalf("%v", err)
 				}
 				pd := []*roaring.Bitmap{GenDrops(t, a.Exp.N, prefix+"a"), GenDrops(t, b.Exp.N, prefix+"b")}
-				ins[i], _, err = MergeCases(ctx, []*SegCase{a, b}, pd, 1025, rapid.IntRange(holdMem, holdFile).Draw(t, prefix+":mhold"))
+				ins[i], _, err = MergeCases(ctx, []*SegCase{a, b}, pd, 1025, rapid.IntRange(holdMem, holdMmap).Draw(t, prefix+":mhold"))
 				if err != nil {
 					t.Fatalf("%s: %v", sc, err)
 				}
@@ -134,6 +134,12 @@ func c03Prop(st *CaseStats, fam int) func(t *rapid.T) {
 			t.Fatalf("%s: %v", desc, err)
 		}
 		exp, wantMaps := MergeExpect(exps, drops)
+		// the slices are the caller's: growing one of them must not reach into another
+		for i := range maps {
+			if i+1 < len(maps) {
+				_ = append(maps[i], 12345, 67890)
+			}
+		}
 		if len(maps) != len(wantMaps) {
 			t.Fatalf("%s:\n  DocumentNumbers has %d slices for %d input segments: %v", desc, len(maps), len(wantMaps), maps)
 		}
